@@ -107,7 +107,9 @@ def make_executor(sdl):
                     if under or has_cond(s):
                         keys.add(s.alias.value if s.alias else s.name.value)
                     if s.selection_set:
-                        walk(s.selection_set, False)
+                        # a conditional field node may be merged with an unconditional node of the same
+                        # response key: its sub-selection is then only conditionally present
+                        walk(s.selection_set, under or has_cond(s))
                 elif isinstance(s, InlineFragmentNode):
                     walk(s.selection_set, under or has_cond(s))
                 elif isinstance(s, FragmentSpreadNode):
@@ -481,6 +483,7 @@ def cmd_call(req):
         rows = []
         accepted = []
         kinds = {}
+        verdicts = []
         for kind, path, bad in enumerate_corruptions(STATE["schema"], box["data"], box["types"],
                                                      req.get("corrupt_limit", 60), req.get("seed", 0)):
             kinds[kind] = kinds.get(kind, 0) + 1
@@ -497,11 +500,14 @@ def cmd_call(req):
                 t, info = type_at(box["types"], path)
                 accepted.append({"kind": kind, "path": path, "type": t, "parent": info and info["parent"],
                                  "value": json.loads(json.dumps(bad))})
+                verdicts.append({"kind": kind, "path": path, "value": bad, "accepted": True})
             except BaseException as exc:  # noqa
                 if type(exc).__name__ != "ValidationError":
                     rows.append({"kind": kind, "path": path, "exc": type(exc).__name__, "msg": str(exc)[:300]})
+                else:
+                    verdicts.append({"kind": kind, "path": path, "value": bad, "accepted": False})
         out["corruptions"] = {"kinds": kinds, "accepted": accepted[:10], "n_accepted": len(accepted),
-                              "other_exc": rows[:10]}
+                              "other_exc": rows[:10], "verdicts": verdicts}
     return out
 
 
